@@ -83,6 +83,10 @@ def run(ctx, rep):
         rep.discharged -= 1
         rep.finding(R2, f.key.replace('C05.', 'C03.R2/C05.', 1), f.where, f.construct, f.msg)
 
+    R5 = rep.rule('C03.R5', 'every unticked node passing a rule\'s filters stays a candidate of that rule until ticked (FilterNodeCache folded)')
+    n = common.bookkeeping(ctx, rep, R5, 'C03.R5', only=('fold_filter_cache',))
+    rep.floor('C03.R5', 'filter cache cases', n, 9)
+
     R3 = rep.rule('C03.R3', 'local-expansion termination of every truth-functional shape with opaque operands; operator rules tick')
     nshape = 0
     for lg in lgs:
